@@ -2,7 +2,7 @@
    Model: C12/Model.v (mirrors utils.str.byteTextWrap/splitBytes, ircutils.FormatContext/
    FormatParser/wrap, NestedCommandsIrcProxy.reply, _makeReply, Misc.more).
    Proofs: Wrap.v, More.v, Fits.v, Plain.v, Total.v.
-   The model follows the repaired code (fix: commits for C12.F12, F13, F40, F41, F42, F43). *)
+   The model follows the repaired code (fix: commits for C12.F12, F13, F40, F41, F42, F43, F44, F45). *)
 From Coq Require Import List NArith ZArith.
 Import ListNotations.
 Require Import Base.Wire Base.PyStr C12.Model C12.Wrap C12.More C12.Fits C12.Plain C12.Total
@@ -95,14 +95,16 @@ Theorem C12_line_fits : forall k p,
 Proof. exact line_fits_full. Qed.
 Print Assumptions C12_line_fits.
 
-(* (b) the "(XX more messages)" reserve (repair of F12) covers the suffix for 1..99 pending
-       messages -- every count the two-digit text provides for; a three-digit count is still over *)
-Theorem C12_suffix_reserve_on_domain : forall n,
-  (1 <= n <= 99)%N -> (blen (suffix n n) <= gen.T12.MORE_RESERVE)%N.
+(* (b) the "(XX more messages)" reserve (repairs of F12 and F45): in whatever language the two words are,
+       the reserve -- the byte length of the longer of '(XX <more message>)' / '(XX <more messages>)' plus
+       the space and the two bold characters -- covers the suffix for 1..99 pending messages, every count
+       the two-character 'XX' provides for; a three-digit count is still over *)
+Theorem C12_suffix_reserve_on_domain : forall k n,
+  (1 <= n <= 99)%N -> (blen (suffix k n n) <= more_reserve k)%N.
 Proof. exact suffix_reserve_on_domain. Qed.
 Print Assumptions C12_suffix_reserve_on_domain.
 
-Theorem C12_suffix_reserve_refuted : exists n, (99 < n)%N /\ (gen.T12.MORE_RESERVE < blen (suffix n n))%N.
+Theorem C12_suffix_reserve_refuted : exists k n, (99 < n)%N /\ (more_reserve k < blen (suffix k n n))%N.
 Proof. exact suffix_reserve_refuted. Qed.
 Print Assumptions C12_suffix_reserve_refuted.
 
